@@ -60,8 +60,8 @@ CLAIMS = {
         note="Trusted: concurrent.futures semantics table (Executor.map preserves submission order; `with` joins). Partial claim.",
         ref="2/C10"),
     "C11": dict(
-        technique="guarded-stepping rule (control dependence of stepping on step/target); return-expression form; polynomial form of the imaginary-time label; term-wise magnitude bound of the eta kernel beyond its overflow guard on the imaginary-time axis",
-        text="Decides that repeating GibbsTempo.compute is idempotent (K1), that the returned state is X/X.trace() on every path (K2) the imaginary-time slice/label forms (K3), Matsubara coefficients on the imaginary-time grid (K4), even transposition parity of every propagator factor of the path (K5: orientation of the thermal state), Matsubara flag in every memo key (K6). Equality with the reduced thermal state is not decided. K8: the thermal eta kernel beyond its overflow guard keeps every term not bounded by exp(-w/T) for Matsubara arguments.",
+        technique="guarded-stepping rule (control dependence of stepping on step/target); return-expression form; polynomial form of the imaginary-time label; term-wise magnitude bound of the eta kernel beyond its overflow guard on the imaginary-time axis; degree-of-homogeneity calculus on the truncation comparisons of the Gibbs back end",
+        text="Decides that repeating GibbsTempo.compute is idempotent (K1), that the returned state is X/X.trace() on every path (K2) the imaginary-time slice/label forms (K3), Matsubara coefficients on the imaginary-time grid (K4), even transposition parity of every propagator factor of the path (K5: orientation of the thermal state), Matsubara flag in every memo key (K6). Equality with the reduced thermal state is not decided. K8: the thermal eta kernel beyond its overflow guard keeps every term not bounded by exp(-w/T) for Matsubara arguments. K9: the Gibbs back end truncates relative to the largest singular value only (no absolute floor).",
         note="Trusted: def-use/CFG engine. Partial claim.",
         ref="2/C11"),
     "C12": dict(
@@ -70,18 +70,18 @@ CLAIMS = {
         note="Trusted: forms engine over an uninterpreted function; scipy.dblquad argument convention table. Partial claim.",
         ref="2/C12"),
     "C13": dict(
-        technique="role-typed quotient detection + rounding-idiom classification; path-conditioned slicing on record_all; polynomial forms of time labels; def-use pairing of insert indices; commit-last rule for step counters; all-or-none path rule for the parallel lists of the result containers",
-        text="Decides how floats become step counts and the form START + k*DT of every time label (G1-G4) for all front ends and steppers. G5: no step counter is advanced before a user callable of that step has returned. G6: time and value lists of Dynamics.add / MeanFieldDynamics.add are inserted together on every path and recorded times are not merged through a relative tolerance.",
+        technique="role-typed quotient detection + rounding-idiom classification; path-conditioned slicing on record_all; polynomial forms of time labels; def-use pairing of insert indices; commit-last rule for step counters; all-or-none path rule for the parallel lists of the result containers; guarded-stepping analysis of the front ends",
+        text="Decides how floats become step counts and the form START + k*DT of every time label (G1-G4) for all front ends and steppers. G5: no step counter is advanced before a user callable of that step has returned. G6: time and value lists of Dynamics.add / MeanFieldDynamics.add are inserted together on every path and recorded times are not merged through a relative tolerance. G7: a computation stops at the requested grid point wherever it starts from (stepping depends on the current step and the target).",
         note="Trusted: role vocabulary (printed in evidence); forms engine. The floating-point value of the quotient itself is covered by requiring a tolerant conversion.",
         ref="2/C13"),
     "C14": dict(
-        technique="control dependence of stepping calls on (step, target); effect analysis of getters; commit-last rule (persistent write before foreign call on some CFG path) with frozen triaged exceptions; export coverage of restart state",
-        text="Decides continuation/idempotence guards of all five method objects (T1), idempotent getters (T2), failure atomicity of step transactions w.r.t. user callables (T3) and restart export coverage (T4).",
+        technique="control dependence of stepping calls on (step, target); effect analysis of getters; commit-last rule (persistent write before foreign call on some CFG path) with frozen triaged exceptions; export coverage of restart state; effect analysis of every state-changing call in compute() against (step, target) / run-once guards",
+        text="Decides continuation/idempotence guards of all five method objects (T1), idempotent getters (T2), failure atomicity of step transactions w.r.t. user callables (T3) and restart export coverage (T4). T8: compute() changes the computational state only through guarded stepping or run-once initialisation.",
         note="Trusted: effect tables (which attributes hold user callables - frozen with the chain that proves it). Numerical identity across the dkmax boundary not decided.",
         ref="2/C14"),
     "C15": dict(
-        technique="polynomial forms: coefficient of START in every manufactured/consumed absolute time; START plumbing by role binding; call-graph reachability of user time-dependent callables; affine typing of recorded times in the result containers (points vs differences)",
-        text="Decides that every absolute time handed to a user callable or used as a label is START + (START-free), every float time is rounded as (t-START)/DT (U1), each front end forwards its own start time (U2), and no user time-dependent callable is reached from a site outside the table (U3). U4: the result containers never use a recorded time as a magnitude and never compare it through a relative tolerance.",
+        technique="polynomial forms: coefficient of START in every manufactured/consumed absolute time; START plumbing by role binding; call-graph reachability of user time-dependent callables; affine typing of recorded times in the result containers (points vs differences); coefficient sums of start and end time in the sample grids of the parameter estimator",
+        text="Decides that every absolute time handed to a user callable or used as a label is START + (START-free), every float time is rounded as (t-START)/DT (U1), each front end forwards its own start time (U2), and no user time-dependent callable is reached from a site outside the table (U3). U4: the result containers never use a recorded time as a magnitude and never compare it through a relative tolerance. U5: the parameter estimator samples a time-dependent system on the window of the computation (the premise of a former exemption, now checked).",
         note="Trusted: forms engine; role vocabulary. Floating-point non-associativity not decided.",
         ref="2/C15"),
     "C16": dict(
